@@ -21,7 +21,10 @@ class Engine(CallMixin, StmtMixin, ExprMixin, Exec):
     def getattr(self, base, attr, node=None):
         b = self.res(base)
         if isinstance(b, VSuper):
-            mro = [c for c in self.find_class(self.cell(b.obj).cls if isinstance(b.obj, VPtr) else b.obj.cls).mro()]
+            if isinstance(b.obj, VClass):
+                mro = list(b.obj.info.mro())
+            else:
+                mro = [c for c in self.find_class(self.cell(b.obj).cls if isinstance(b.obj, VPtr) else b.obj.cls).mro()]
             seen = False
             for c in mro:
                 if c is b.cls:
@@ -31,6 +34,9 @@ class Engine(CallMixin, StmtMixin, ExprMixin, Exec):
                     return VFunc(c.methods[attr], b.obj)
             if attr == '__init__':
                 return VBuiltin('object.__init__', b.obj)
+            if attr == '__new__':
+                ext = [c for c in mro if isinstance(c, str)]
+                return VBuiltin((ext[0].split('.')[-1] if ext else 'object') + '.__new__', b.obj)
             self.limit(f'super().{attr}', node)
         if isinstance(b, models.VIter):
             self.limit(f'attribute {attr} of an iterator', node)
